@@ -444,6 +444,8 @@ def run(env, res):
                  '(45 % of the histories favour it); distinct = distinct history')
     if env['replay']:
         rp = json.load(open(env['replay']))
+        if 'ospec' in rp['case']:       # a definition alone: one layer, an empty call
+            rp['case'] = dict(layers=[dict(fns=[rp['case']['ospec']], x=False)], call=dict(args=[], kw=[]))
         cases = [rp['case']]
         if 'steps' in rp['case']:
             fs, recs = run_history(rp['case'], drv)
